@@ -297,6 +297,10 @@ func c05StanzaEncoder(c *cx) {
 		return
 	}
 	g := f.Graph()
+	// decisions about the completed start element are taken on the element as
+	// it is written, not on a copy made before the namespace was filled in
+	nStale := staleCopies(c, id, f)
+	c.r.Note("%s: %d local copies of later-assigned selector paths examined in EncodeToken", id, nStale)
 	guard := []string{"eq(recv.depth,1)", "xmpp.isStanzaEmptySpace(*.Name)", "istype(*;encoding/xml.StartElement)"}
 	nApp := map[string]int{}
 	// the two "attribute seen" flags, found by role: the boolean local that is
